@@ -31,25 +31,39 @@ def extract(repo):
     if not m or m.group(2) == m.group(3):
         raise R.Unsupported("compare_item: not `if [!]self.tac { x.cmp(y) } else { y.cmp(x) }`")
     plain_is_ab = (m.group(2) == "a.cmp(b)") == (m.group(1) == "!")     # what is evaluated when tac is false
-    # sort_vector
+    # sort_vector: sort ascending, then reverse under a condition on (asc, tac) written in one of several ways
     b = norm(R.fn_body(src, "sort_vector")[0])
-    m = re.fullmatch(r"let asc = asc \^ self\.tac; vec\.(?:par_sort|sort)\(\); if (!?)asc \{ vec\.reverse\(\); \}", b)
+    m = re.fullmatch(r"(let (\w+) = asc (\^|==|!=) self\.tac; )?vec\.(?:par_sort|sort)\(\); if (!?)(\w+|asc (?:\^|==|!=) self\.tac) \{ vec\.reverse\(\); \}", b)
     if not m:
-        raise R.Unsupported("sort_vector: not `asc ^= tac; sort; if [!]asc { reverse }`")
-    reverse_when_not_asc = m.group(1) == "!"
-    # get
+        raise R.Unsupported("sort_vector: not `[x = asc op tac;] sort; if [!]cond { reverse }`")
+    OPS = {"^": "(asc != tac)", "!=": "(asc != tac)", "==": "(asc == tac)"}
+    if m.group(1):
+        if m.group(5) != m.group(2):
+            raise R.Unsupported("sort_vector: the reverse condition is not the bound flag")
+        cond = OPS[m.group(3)]
+    else:
+        mm = re.fullmatch(r"asc (\^|==|!=) self\.tac", m.group(5))
+        if not mm:
+            raise R.Unsupported("sort_vector: the reverse condition is not understood")
+        cond = OPS[mm.group(1)]
+    sort_rev = ("(!%s)" % cond) if m.group(4) else cond
+    # get: the index read from `sorted` (None = the function returns None), statement by statement
     b = norm(R.fn_body(src, "get")[0])
-    m = re.fullmatch(r"self\.merge_till\(index\); if ([^{]*?) \{ None \} else \{ let index = ([^;]*); "
-                     r"Some\(Ref::map\(self\.sorted\.borrow\(\), \|list\| &list\[index\]\)\) \}", b)
-    if not m:
-        raise R.Unsupported("get: not `merge_till(index); if c { None } else { let index = e; Some(&sorted[index]) }`")
+    if not b.startswith("self.merge_till(index);"):
+        raise R.Unsupported("get: does not start with merge_till(index)")
+    b = b[len("self.merge_till(index);"):]
+    b, nsub = re.subn(r"Some\(Ref::map\(self\.sorted\.borrow\(\), \|list\| &list\[(\w+)\]\)\)", r"Some(\1)", b)
+    if nsub != 1:
+        raise R.Unsupported("get: not exactly one `Some(Ref::map(self.sorted.borrow(), |list| &list[i]))`")
     A = {"self.tac": ("tac", "Bool"), "self.nosort": ("nosort", "Bool"), "self.len()": ("n", "Nat")}
-    get_none = R.translate(m.group(1), A, locals_={"index": "Nat"})
-    get_idx = R.translate(m.group(2), A, locals_={"index": "Nat"})
+    get_read = R.translate(b, A, locals_={"index": "Nat"})
+    if get_read[1].strip("()") != "Option Nat":
+        raise R.Unsupported("get: type %s" % get_read[1])
     # len
     b = norm(R.fn_body(src, "len")[0])
-    if b != ("let sorted_len = self.sorted.borrow().len(); let unsorted_len: usize = "
-             "self.sub_vectors.borrow().iter().map(|v| v.len()).sum(); sorted_len + unsorted_len"):
+    SUM = r"self\.sub_vectors\.borrow\(\)\.iter\(\)\.map\((?:\|v\| v\.len\(\)|Vec::len)\)\.sum\(\)"
+    if not (re.fullmatch(r"let (\w+) = self\.sorted\.borrow\(\)\.len\(\); let (\w+): usize = " + SUM + r"; (?:\1 \+ \2|\2 \+ \1)", b)
+            or re.fullmatch(r"let (\w+): usize = " + SUM + r"; (?:self\.sorted\.borrow\(\)\.len\(\) \+ \1|\1 \+ self\.sorted\.borrow\(\)\.len\(\))", b)):
         raise R.Unsupported("len: not `sorted.len() + sum of the sub-vector lengths`")
     # append
     b = norm(R.fn_body(src, "append")[0])
@@ -92,11 +106,10 @@ def extract(repo):
            "inductive Ord3 | less | greater | equal", "  deriving DecidableEq, Repr", "",
            "/-- `compare_item(a, b)` without `tac` is `a.cmp(b)` (with `tac` the operands are swapped) -/",
            "def comparePlainIsAB : Bool := %s" % tf(plain_is_ab), "",
-           "/-- `sort_vector`: `asc ^ tac`, sort ascending, `vec.reverse()` exactly when the effective `asc` is false -/",
-           "def sortReversesWhenNotAsc : Bool := %s" % tf(reverse_when_not_asc), "",
-           "/-- `get`: the condition of `None` and the index read from `sorted` (`n` = `self.len()` after `merge_till`) -/",
-           "def getNone (tac nosort : Bool) (n index : Nat) : Bool :=", "  decide %s" % get_none[0],
-           "def getIndex (tac nosort : Bool) (n index : Nat) : Nat :=", "  " + get_idx[0].replace("\n", "\n  "), "",
+           "/-- `sort_vector`: after the ascending sort, `vec.reverse()` runs under this condition -/",
+           "def sortReverses (asc tac : Bool) : Bool := %s" % sort_rev, "",
+           "/-- `get`: the index read from `sorted`, `none` = `None` is returned (`n` = `self.len()` after `merge_till`) -/",
+           "def getRead (tac nosort : Bool) (n index : Nat) : Option Nat :=", "  " + get_read[0].replace("\n", "\n  "), "",
            "/-! `append` -/",
            "/-- `self.sort_vector(&mut items, asc)` of the batch -/", "def batchAsc : Bool := %s" % batch_asc,
            "/-- the movement loop runs only `if !sorted.is_empty()` -/", "def loopGuarded : Bool := %s" % tf(guarded),
